@@ -553,9 +553,8 @@ def run_check(plugin, tier, seed):
     try:
         return _run_check(plugin, tier, seed)
     finally:
-        for f in gen.glob("*.lean"):
-            if f not in snap:
-                f.unlink()
+        # (files that appeared meanwhile are left alone: another check may have generated them; the next run against
+        # /repo regenerates every Gen file it needs anyway)
         for f, b in snap.items():
             if not f.exists() or f.read_bytes() != b:
                 f.write_bytes(b)
